@@ -110,7 +110,7 @@ func lastAnswerFor(id *ids, log []entry, from, to int, h uint64) string {
 
 // implReplay returns "" when the machine reproduced the run, else a description of the first
 // difference. compared = number of events checked.
-func implReplay(drv *lib.Driver, id *ids, sc Scenario, out *outcome, pre []*lib.Bundle, notifOf func(k int) []string) (diff string, compared int, hits map[string]int) {
+func implReplay(drv *lib.Driver, id *ids, sc Scenario, out *outcome, pre []*lib.Bundle, notifOf func(k int) []string, failedRevert map[int]bool) (diff string, compared int, hits map[string]int) {
 	hits = map[string]int{}
 	p := &implReplayer{drv: drv, id: id, task: "-"}
 	if a, err := drv.Ask(strings.TrimSpace("impl-init " + chainTokens(id, pre))); err != nil || a != "ok" {
@@ -177,17 +177,29 @@ func implReplay(drv *lib.Driver, id *ids, sc Scenario, out *outcome, pre []*lib.
 			}
 			p.chain = append(p.chain, headRec{e.Num, e.Hash})
 			lastCommit = li + 1
-		case eReverted:
+		case eReverted, eOnReorg:
+			failed := e.Kind == eOnReorg
+			if failed && !failedRevert[li] {
+				continue // the listener call that follows a successful revert
+			}
 			if len(p.chain) == 0 {
 				return "revert on an empty chain", p.n, hits
 			}
 			head := p.chain[len(p.chain)-1]
+			if failed {
+				e.Hash = head.hash // OnReorg only carries the number
+			}
 			want := fmt.Sprintf("R %d %d", e.Num, id.of(&e.Hash))
+			okFlag := "1"
+			if failed {
+				want = fmt.Sprintf("RF %d %d", e.Num, id.of(&e.Hash))
+				okFlag = "0"
+			}
 			if p.task != "-" {
 				// does the running task do this revert? if not, the real task has ended in between
 				// (its request failed or was answered with the same block) and a new one was started
 				ans := lastAnswerFor(id, log, lastCommit, li, e.Num)
-				if p.peek("iter "+ans+" 1") != want {
+				if p.peek("iter "+ans+" "+okFlag) != want {
 					if d := closeTask(li); d != "" {
 						return d, p.n, hits
 					}
@@ -238,12 +250,18 @@ func implReplay(drv *lib.Driver, id *ids, sc Scenario, out *outcome, pre []*lib.
 				}
 			}
 			ans := lastAnswerFor(id, log, lastCommit, li, e.Num)
-			obs := p.ask("impl iter " + ans + " 1")
-			hits["impl:iter-revert"]++
+			obs := p.ask("impl iter " + ans + " " + okFlag)
+			if failed {
+				hits["impl:iter-revert-failed"]++
+			} else {
+				hits["impl:iter-revert"]++
+			}
 			if obs != want && p.err == "" {
 				return fmt.Sprintf("revert of block %d: the machine emits %q (answer %s), observed %q", e.Num, obs, ans, want), p.n, hits
 			}
-			p.chain = p.chain[:len(p.chain)-1]
+			if !failed {
+				p.chain = p.chain[:len(p.chain)-1]
+			}
 			lastCommit = li + 1
 		}
 	}
